@@ -454,10 +454,9 @@ def setup_apply(P, W):
 APPLY_CALLS = dict(UPDATE_CALLS_A11)
 APPLY_CALLS.update({"call:np.dot": CallSpec(h_np_dot), "setattr:BaseCurve.knotvector": CallSpec(h_set_kv)})
 
-APPLY_LOOPS = {
-    0: dict(invariant=["0 <= it0 and it0 <= len_it0", "len(oldctrlpoints) == npts(self)"], decreases="len_it0 - it0"),
-    1: dict(invariant=["0 <= it1 and it1 <= len_it1", "len(newctrlpoints) == it1", "len(oldctrlpoints) == npts(self)", "unchanged(self)"], decreases="len_it1 - it1"),
-    2: dict(invariant=["0 <= it2 and it2 <= len_it2", "len(newctrlpoints) == it1 + 1", "len(oldctrlpoints) == npts(self)", "unchanged(self)"], decreases="len_it2 - it2"),
+APPLY_LOOPS = {     # (the weighted points are built by a comprehension since the D38 repair: two loops are left, the rows of the matrix and the columns)
+    0: dict(invariant=["0 <= it0 and it0 <= len_it0", "len(newctrlpoints) == it0", "len(oldctrlpoints) == npts(self)", "unchanged(self)"], decreases="len_it0 - it0"),
+    1: dict(invariant=["0 <= it1 and it1 <= len_it1", "len(newctrlpoints) == it0 + 1", "len(oldctrlpoints) == npts(self)", "unchanged(self)"], decreases="len_it1 - it1"),
 }
 
 
